@@ -20,8 +20,7 @@ func init() {
 }
 
 var c06SendTable = map[string]string{
-	"(*plugin.runningStep).startStage$1:executionChannel": "capacity 2 and this is the only send site; the goroutine sends once and is started once per step (C04.R1), so the send cannot block",
-	"(*plugin.runningStep).cancelStep:signalToStep":       c01R2Exceptions["(*plugin.runningStep).cancelStep:signalToStep"],
+	"(*plugin.runningStep).cancelStep:signalToStep": c01R2Exceptions["(*plugin.runningStep).cancelStep:signalToStep"],
 }
 
 // C06.R1 every blocking point can be cancelled.
@@ -61,7 +60,13 @@ func c06R1(c *Ctx) {
 						c.ok(rule, k, c.instrPos(op.In), fmt.Sprintf("once-guarded by %s on a channel of capacity %d", flag.Name(), capv), true)
 						continue
 					}
-					if why, ok := c06SendTable[c.fnName(fn)+":"+op.Ch.Name]; ok {
+					// computed: a goroutine body that is started from one `go` statement outside any loop, with no more
+					// send instructions on the channel (none of them in a loop, no other sender anywhere) than its capacity
+					if okB, whyB := c.sendsWithinCapacity(fn, op, int(capv)); okB {
+						c.ok(rule, k, c.instrPos(op.In), whyB, true)
+						continue
+					}
+					if why, ok := c.tabledS(c06SendTable, fn, ":"+op.Ch.Name); ok {
 						// recompute the checkable part: capacity and single send site
 						sites := 0
 						for _, f2 := range c.runFns() {
@@ -290,4 +295,53 @@ func c06R5(c *Ctx) {
 func c06R6(c *Ctx) {
 	c.explain("C06.R6 = C05.R7 (deployments and sub-runs are started with the step context)")
 	relabel(c, "C05.R7", "C06.R6", c05R7)
+}
+
+// sendsWithinCapacity: the send cannot block because the channel's buffer is large enough for everything that is ever
+// sent on it: all send sites on the field are in fn, none is in a loop, there are at most `capv` of them, and fn runs once
+// per channel — it is the body of a goroutine started from a single `go` statement that is not in a loop.
+func (c *Ctx) sendsWithinCapacity(fn *ssa.Function, op chanOp, capv int) (bool, string) {
+	if capv < 1 || op.Ch.Field == nil {
+		return false, ""
+	}
+	sites := 0
+	elsewhere := false
+	for _, f2 := range c.runFns() {
+		for _, o2 := range c.chanOps(f2) {
+			isSend := o2.Kind == "send" && o2.Ch.Field == op.Ch.Field
+			if o2.Kind == "select" && o2.Sel != nil {
+				for _, st := range o2.Sel.States {
+					if st.Dir == types.SendOnly && loadedField(st.Chan) == op.Ch.Field {
+						isSend = true
+					}
+				}
+			}
+			if !isSend {
+				continue
+			}
+			if f2 != fn {
+				elsewhere = true
+				continue
+			}
+			sites++
+			for _, li := range loopsOf(fn) {
+				if li.Blocks[o2.In.Block()] {
+					return false, ""
+				}
+			}
+		}
+	}
+	if elsewhere || sites == 0 || sites > capv {
+		return false, ""
+	}
+	site, isGo := ownerSite[fn].(*ssa.Go)
+	if !isGo {
+		return false, ""
+	}
+	for _, li := range loopsOf(site.Parent()) {
+		if li.Blocks[site.Block()] {
+			return false, ""
+		}
+	}
+	return true, fmt.Sprintf("the channel has capacity %d and its only %d send site(s) are in this goroutine body, which a single `go` statement outside any loop starts", capv, sites)
 }
